@@ -1,5 +1,5 @@
 """bounded run-time check of C09 / C10 text layer: serialise -> parse round trip of real regions through the real DS9 text.
-bound: 10 classes x 6 frames x precision {1,3,8,12} x 3 magnitudes x 10 metadata entries x lists of 1-4 regions (quick: a seeded
+bound: 10 classes x 6 frames x precision {1,3,8,12} x 3 magnitudes x 12 metadata entries x lists of 1-4 regions (quick: a seeded
 sample of that product; thorough: larger sample)."""
 import sys
 from common import *  # noqa: F401,F403
@@ -16,6 +16,8 @@ VOCAB = [
     ({}, {'linestyle': (0, (8, 3))}),
     ({'text': 'x'}, {'fontname': 'helvetica', 'fontsize': 12, 'fontweight': 'bold', 'fontstyle': 'normal'}),
     ({'source': 1, 'edit': 0}, {}),
+    ({'text': 'NGC 1333 "core"', 'tag': ["fov 5'", 'beam 12"']}, {}),
+    ({'text': "'quoted'"}, {}),
 ]
 
 
